@@ -39,7 +39,7 @@ def gen(tier, rng, shard, nshards):
         else:
             yield {"mode": "pinv", "m": m, "n": n, "dt": dt, "seed": S.seed(rng), "alg": S.pick(rng, [OMIT, "Auto", "LSTSQ", "CG", "CG"]),
                    "wide_rhs": bool(rng.random() < 0.25),
-                   "kind": S.pick(rng, ["Dense", "Dense", "Generic", "Identity", "Diagonal", "ScalarMul", "Permutation", "Product"]),
+                   "kind": S.pick(rng, ["Dense", "Dense", "Generic", "Identity", "Diagonal", "ScalarMul", "Permutation", "Product", "ProductRect", "ProductRect"]),
                    "cols": int(S.pick(rng, [0, 1, 3])), "consistent": bool(rng.random() < 0.5)}
 
 
@@ -63,6 +63,15 @@ def operator(case, rng):
         return node
     sv = lin(1.0, 4.0, r)  # well separated, cond 4, full rank
     leaf = {"k": "Dense" if kind != "Generic" else "Generic", "shape": [m, n], "dt": dt, "seed": S.seed(rng), "gen": "svals", "svals": sv}
+    if kind == "ProductRect":
+        # A = B C with rectangular factors for which (B C)^+ != C^+ B^+ in general (tall @ tall, wide @ wide, wide @ tall)
+        if abs(m - n) >= 2 and rng.random() < 0.7:
+            p_ = (m + n) // 2
+        else:
+            p_ = max(m, n) + 2
+        f1 = {"k": S.pick(rng, ["Dense", "Generic"]), "shape": [m, p_], "dt": dt, "seed": S.seed(rng), "gen": "svals", "svals": lin(1.0, 2.0, min(m, p_))}
+        f2 = {"k": "Dense", "shape": [p_, n], "dt": dt, "seed": S.seed(rng), "gen": "svals", "svals": lin(1.0, 2.0, min(p_, n))}
+        return {"k": "Product", "via": S.pick(rng, ["ctor", "fn"]), "args": [f1, f2]}
     if kind == "Product":
         # A = U0 @ leaf with a unitary left factor (keeps the singular values)
         U0 = {"k": "Dense", "shape": [m, m], "dt": dt, "seed": S.seed(rng), "gen": "orth"}
